@@ -23,6 +23,12 @@ _Static_assert(MAX_ARGS == 16, "SPEC_WF enumerates 16 arguments");
 	B((s)->payload_size <= 4 + 8 * MAX_ARGS) & \
 	ARG_WF(s, 0) & ARG_WF(s, 1) & ARG_WF(s, 2) & ARG_WF(s, 3) & ARG_WF(s, 4) & ARG_WF(s, 5) & ARG_WF(s, 6) & ARG_WF(s, 7) & \
 	ARG_WF(s, 8) & ARG_WF(s, 9) & ARG_WF(s, 10) & ARG_WF(s, 11) & ARG_WF(s, 12) & ARG_WF(s, 13) & ARG_WF(s, 14) & ARG_WF(s, 15)) != 0)
+/* what check_payload adds for an event: every declared string starts inside the payload
+ * (and has its NUL inside it: single-cell observer in c19_model.c) */
+#define STR_IN(s, i, psz) (B((i) >= (s)->nargs) | B((s)->args[i].type != STR) | B((s)->args[i].offset < (psz)))
+#define STRINGS_INSIDE(s, psz) ((STR_IN(s, 0, psz) & STR_IN(s, 1, psz) & STR_IN(s, 2, psz) & STR_IN(s, 3, psz) & STR_IN(s, 4, psz) & \
+	STR_IN(s, 5, psz) & STR_IN(s, 6, psz) & STR_IN(s, 7, psz) & STR_IN(s, 8, psz) & STR_IN(s, 9, psz) & STR_IN(s, 10, psz) & \
+	STR_IN(s, 11, psz) & STR_IN(s, 12, psz) & STR_IN(s, 13, psz) & STR_IN(s, 14, psz) & STR_IN(s, 15, psz)) != 0)
 #define NAME_T(s, i) B((s)->args[i].name[63] == 0)
 #define SPEC_NAMES_TERMINATED(s) ((NAME_T(s, 0) & NAME_T(s, 1) & NAME_T(s, 2) & NAME_T(s, 3) & NAME_T(s, 4) & NAME_T(s, 5) & \
 	NAME_T(s, 6) & NAME_T(s, 7) & NAME_T(s, 8) & NAME_T(s, 9) & NAME_T(s, 10) & NAME_T(s, 11) & NAME_T(s, 12) & \
